@@ -17,6 +17,12 @@ New spec keys (all optional):
              The reading of each pattern is the spec's (TRUSTED, listed in srcspecs_gcsa.py).
   eqbs       {type: coq text of == on that type}:  `x in xs` / `x not in xs` for xs : list of that type
              -> existsb (eqb x) xs   (Python's list membership compares with ==, left to right)
+  skip_stmts [exact source text of statements that have no effect on what the translation reads]
+             (e.g. a store into a dictionary that is read only through an abstracted expression): dropped.
+  decorators_ok  [decorators, besides @override / @property, under which the function body is translated]
+             (the decorator itself is translated separately or trusted: the spec says which)
+  assert_fail    coq text of the result when `assert x is not None` fails (x a NAME of type O:T; the rest
+             of the block runs with x : T)
   truthy     [types whose values are always truthy]: an Optional of such a type used as a condition is
              `is not None`
   (tuples)   `a, b = f(..)` for a call whose declared result is a spec["tuples"] type
@@ -247,6 +253,11 @@ def gx_coerce(self, text, ty, want, e, env):
 
 def gx_stmt(self, s, rest, env, fin, ind):
     pad = "  " * ind
+    if self.spec.get("skip_stmts") and ast.unparse(s) in self.spec["skip_stmts"]:
+        # a statement the spec declares to have no effect on anything the translation reads (exact text)
+        if self.loop_depth:
+            raise Unsupported("a skipped statement inside a loop")
+        return self.block(rest, env, fin, ind)
     # a, b = f(..)   (the value is not a tuple display: pysrc handles `a, b = e1, e2`)
     if isinstance(s, ast.Assign) and len(s.targets) == 1 and isinstance(s.targets[0], ast.Tuple) \
             and not isinstance(s.value, ast.Tuple):
@@ -334,7 +345,41 @@ def _unify(self, t1, t2):
     return _orig_unify(self, t1, t2)
 
 
+_orig_translate_all = pysrc.translate_all
+
+
+def _translate_all(repo, specs, header=pysrc.HEADER):
+    """pysrc.translate_all rejects every decorator but @override / @property before it calls Tr.function.
+    For a spec with decorators_ok the listed decorators are accepted: find_function is made to hand out a
+    copy of the FunctionDef without them (for the specs that ask for it, matched by class and function)."""
+    ok = {}
+    for sp in specs:
+        if sp.get("decorators_ok"):
+            ok[(sp["file"], sp.get("cls"), sp["func"])] = set(sp["decorators_ok"])
+    if not ok:
+        return _orig_translate_all(repo, specs, header)
+    orig_find = pysrc.find_function
+
+    def find(tree, cls, func):
+        fdef = orig_find(tree, cls, func)
+        accepted = set()
+        for (f, c, fn), decs in ok.items():
+            if c == cls and fn == func:
+                accepted |= decs
+        if not accepted or not any(ast.unparse(d) in accepted for d in fdef.decorator_list):
+            return fdef
+        fdef2 = copy.copy(fdef)
+        fdef2.decorator_list = [d for d in fdef.decorator_list if ast.unparse(d) not in accepted]
+        return fdef2
+    pysrc.find_function = find
+    try:
+        return _orig_translate_all(repo, specs, header)
+    finally:
+        pysrc.find_function = orig_find
+
+
 if getattr(pysrc.Tr, "_gx_installed", False) is False:
+    pysrc.translate_all = _translate_all
     pysrc.Tr.expr0 = _expr0
     pysrc.Tr.coerce = _coerce
     pysrc.Tr.block = _block
